@@ -33,13 +33,14 @@ type Sched struct {
 	busy    int
 	wake    chan struct{}
 	log     []string
+	counts  map[string]int
 	Timeout time.Duration
 }
 
 var S = newSched()
 
 func newSched() *Sched {
-	return &Sched{byGoid: map[int64]*Thread{}, wake: make(chan struct{}, 1), Timeout: 2 * time.Second}
+	return &Sched{byGoid: map[int64]*Thread{}, wake: make(chan struct{}, 1), counts: map[string]int{}, Timeout: 2 * time.Second}
 }
 
 func goid() int64 {
@@ -229,4 +230,48 @@ func (s *Sched) Dump() string {
 	buf := make([]byte, 1<<20)
 	n := runtime.Stack(buf, true)
 	return string(buf[:n])
+}
+
+// Park is a scheduling point in every granularity (the thread is always runnable).
+func Park(label string) { Await(label, nil) }
+
+// Count adjusts a named counter (mirrors of sync.WaitGroup counters and the like).
+func Count(key string, delta int) {
+	s := S
+	if !s.on {
+		return
+	}
+	s.mu.Lock()
+	s.counts[key] += delta
+	s.mu.Unlock()
+}
+
+func Counter(key string) int {
+	s := S
+	s.mu.Lock()
+	defer s.mu.Unlock()
+	return s.counts[key]
+}
+
+// Signal increments a counter and wakes a harness goroutine polling it (used by unscheduled
+// helper goroutines such as the output readers to report completion).
+func Signal(key string) {
+	Count(key, 1)
+	S.notify()
+}
+
+// Label returns the label the thread is parked at.
+func (t *Thread) At() string { return t.Label }
+
+// Block parks only when cond() does not hold right now (lock acquisition: no scheduling point
+// unless contended).
+func Block(label string, cond func() bool) {
+	s := S
+	if !s.on {
+		return
+	}
+	if s.me() == nil || cond() {
+		return
+	}
+	Await(label, cond)
 }
